@@ -203,7 +203,8 @@ def answerCore (fs : List (String × String)) : E String := do
         | some e => return s!"res=FAIL:coordinates {e}"
         | none => pure ()
         if !c.ok then return s!"res=BROKEN:solver-input {describe c}"
-        return s!"res=ok {describe c} {certLine co} trivial={trivS} approx={N * N + N * d + N}"
+        let negsel := ((List.range d).filter fun cc => (vals[cc]!).m < 0).length
+        return s!"res=ok {describe c} {certLine co} trivial={trivS} negsel={negsel} approx={N * N + N * d + N}"
     else throw s!"unknown op {op}"
   else throw "N=0"
 
